@@ -18,12 +18,18 @@ def refuted : List String :=
 def notEstablished : List String :=
   (locatorRoots.filter fun f => f.2.2.1 == "unknown").map fun f => f.1 ++ ": " ++ f.2.2.2.1
 
-/-- `CLIInterpreter.CreateRuntimeProvider`: the locator's Root is the configured `Dir` value itself (not refuted) -/
-def toolRootIsDir : Bool := true
+/-- `CLIInterpreter.CreateRuntimeProvider`: is the locator's Root the configured `Dir` value itself?
+    `some true` established, `some false` refuted, `none` not established (no literal found / not followed) -/
+def toolRootFact : Option Bool := some true
+
+/-- what the driver instantiates the model with: not refuted -/
+def toolRootIsDir : Bool := toolRootFact.getD true
 
 /-- every call reachable from `FileImportLocator.Resolve` that touches the file system (or cannot be classified):
     (site, call, verdict, reason). `configured` = after the containment test, guarded by its result, argument = the tested value. -/
 def resolveCalls : List (String × String × String × String) := [
+  ("cli/tool:tool.CLIInterpreter.LoadInitialFile", "ioutil.ReadFile(i.EntryFile)", "configured", "the program's own entry / log / configuration file, named by the user"),
+  ("cli/tool:tool.CLIInterpreter.LoadStdlibPlugins", "ioutil.ReadFile(confFile)", "configured", "the program's own entry / log / configuration file, named by the user"),
   ("util:util.FileImportLocator.Resolve", "ioutil.ReadFile(importPath)", "configured", "")
 ]
 
@@ -38,8 +44,15 @@ def importResolveCalls : List (String × String × String × String × String ×
   ("interpreter:interpreter.importRuntime.Eval", "rt.erp.ImportLocator", "configured", "", "fmt.Sprint(importPath)", "configured", "")
 ]
 
-/-- the facts the import model is instantiated with (`true` = not refuted) -/
+/-- is the receiver of every `Resolve` call reachable from `importRuntime.Eval` the provider's configured locator?
+    (`none`: not established, e.g. no call found) -/
+def receiverFact : Option Bool := some true
+
+/-- is its argument `fmt.Sprint` of the value of the path expression (child 0)? -/
+def argumentFact : Option Bool := some true
+
+/-- what the driver instantiates the import model with: every fact that is not refuted -/
 def importFacts : Ecal.Path.ImportFacts :=
-  { receiverIsConfiguredLocator := true, argumentIsPathValue := true }
+  { receiverIsConfiguredLocator := receiverFact.getD true, argumentIsPathValue := argumentFact.getD true }
 
 end Ecal.Gen.C17
